@@ -426,9 +426,10 @@ def run_pth(griffe, acc):
                 want = {k: ([os.path.realpath(x) for x in v["locations"]] if v["namespace"] else os.path.realpath(v["origin"])) for k, v in ref.items()}
                 outs = {}
                 for order_name, order in (("ascending", listing.ascending), ("descending", listing.descending)):
-                    for form in ("name", "path-as-written", "path-real"):
+                    for form in ("name", "path-as-written", "path-real") + (("path-first-portion",) if top == "p" else ()):
                         cd = {"family": "pth", "pth_line": lname, "top": top, "request": form, "listing": order_name}
-                        target = top if form == "name" else os.path.join(added if (top == "reg" and form == "path-as-written") else os.path.join(d, "real") if top == "reg" else s1, top)
+                        # (by path: the directory of the package below the .pth directory, spelled as the line spells it or resolved; for p also its first portion, below s1)
+                        target = top if form == "name" else os.path.join({"path-as-written": added, "path-real": os.path.join(d, "real"), "path-first-portion": s1}[form], top)
                         try:
                             with listing.Listing(order):
                                 loader = griffe.GriffeLoader(search_paths=[s1], allow_inspection=False)
